@@ -158,7 +158,7 @@ let () =
              let members = ref [] in   (* (is_group, flags, args rev, cons rev) newest first *)
              let argv = ref [] and file = ref None and env = ref None and sline = ref None
              and pinned = ref false and pinned_grp = ref false and pinned_end = ref false and xfiles = ref []
-             and subspecs = ref [] and pinned_sub = ref false in
+             and subspecs = ref [] and subrules = ref [] and pinned_sub = ref false in
              let push_arg t = match !members with
                | (g, f, a, c) :: r -> members := (g, f, t :: a, c) :: r | [] -> raise (Unsupported "arg before handler") in
              let push_con t = match !members with
@@ -189,9 +189,23 @@ let () =
                    xfiles := (str_of_string (unhex (after "xdir:" t)), []) :: !xfiles
                  else if starts "S:" t then
                    (match String.split_on_char ':' t with
-                    | [_; spec; f] ->
+                    | _ :: spec :: f :: rest ->
                         members := (false, int_of_string (after "f=" f), [], []) :: !members;
-                        subspecs := (List.length !members - 1, spec) :: !subspecs
+                        subspecs := (List.length !members - 1, spec) :: !subspecs;
+                        (* options of the sub-group argument itself: man, card=... *)
+                        let opts = match rest with [] -> [] | o :: _ -> split_on '/' o in
+                        let rule = List.fold_left (fun (m, cd) o ->
+                            match String.split_on_char '=' o with
+                            | [""] -> (m, cd)
+                            | ["man"] -> (true, cd)
+                            | ["card"; v] ->
+                                (match split_on '~' v with
+                                 | ["max"; n] -> (m, CardMax (z_of_int (int_of_string n)))
+                                 | ["exact"; n] -> (m, CardExact (z_of_int (int_of_string n)))
+                                 | ["range"; a; b] -> (m, CardRange (z_of_int (int_of_string a), z_of_int (int_of_string b)))
+                                 | _ -> (m, CardNone))
+                            | _ -> raise (Unsupported "sub-group option")) (false, CardNone) opts in
+                        subrules := rule :: !subrules
                     | _ -> raise (Unsupported "sub-group token"))
                  else if starts "late:" t then raise (Unsupported "definitions behind a sub-group argument")
                  else if t = "model:pinned-subgroup" then pinned_sub := true
@@ -267,7 +281,7 @@ let () =
                    let k = key_of_spec (List.assoc i !subspecs) in
                    (match add_argument !subtab k () with Ok t' -> subtab := t' | _ -> raise Setup);
                    (k, c)) subs in
-               let sgc = { sg_main = mc; sg_subs = sgsubs } in
+               let sgc = { sg_main = mc; sg_subs = sgsubs; sg_rules = List.rev !subrules } in
                (* one key, one argument - plain or sub-group (ArgH/SubGroup.v) *)
                if not (sg_keys_ok sgc) then raise Setup;
                (match eval_sg !pinned_sub sgc minits (List.map (fun (_, (_, i, _, _)) -> i) subs) (List.map str_of_string !argv) with
